@@ -186,7 +186,7 @@ def check_properties_file(prop, timeout=900):
     Returns dict(ok, theorems, closed, axioms, log)."""
     path = os.path.join(COQ, "Properties", prop + ".v")
     src = strip_comments(open(path).read())
-    theorems = re.findall(r"^\s*(?:Theorem|Lemma)\s+([A-Za-z0-9_']+)", src, re.M)
+    theorems = re.findall(r"^\s*(?:Theorem|Lemma|Example|Corollary|Proposition|Fact|Remark)\s+([A-Za-z0-9_']+)", src, re.M)
     printed = [x.split(".")[-1] for x in re.findall(r"Print\s+Assumptions\s+([A-Za-z0-9_'.]+?)\s*\.(?=\s|$)", src)]
     with Lock("coq.lock"):
         p = run(["coqc", "-Q", ".", "KV", os.path.join("Properties", prop + ".v")], cwd=COQ, timeout=timeout)
